@@ -517,45 +517,113 @@ def iniGetBoolean (d : IniDict) (sec opt : Str) : Except Err Bool :=
 (the real grammar, insights/parsr/iniparser.py, is an instance of C19's combinators and is tied to
 this reading by correspondence on rendered documents; it is not proved here) -/
 
+/-- the character sets of the grammar (`header_chars`, `key_chars`, `sep_chars`, `value_chars` of
+    `iniparser.parse_doc`, and the one-character comment starters); the live sets are regenerated into
+    `IV.Gen.IniChars.alphabet` on every run -/
+structure IniAlphabet where
+  header : List Char
+  key : List Char
+  sep : List Char
+  value : List Char
+  comment : List Char
+  deriving DecidableEq, Repr
+
+/-- `string.whitespace` (what the grammar's `WS` skips) -/
+def isIniWs (c : Char) : Bool :=
+  c = ' ' || c = '\t' || c = '\n' || c = '\r' || c = Char.ofNat 11 || c = Char.ofNat 12
+
+def lstripWs (s : Str) : Str := s.dropWhile isIniWs
+/-- column of the first character that is not white space -/
+def leadWs (s : Str) : Nat := (s.takeWhile isIniWs).length
+
+/-- `content.encode('ascii', 'replace').decode()` -/
+def asciiReplace (s : Str) : Str := s.map (fun c => if c.toNat < 128 then c else '?')
+
+/-- `s.rstrip(" \\")` -/
+def rstripBS (s : Str) : Str := (s.reverse.dropWhile (fun c => c = ' ' || c = '\\')).reverse
+
+/-- one physical line of a value as `HangingString` keeps it: inline `#` comment removed, then
+    `rstrip(" \\")` -/
+def iniValuePiece (raw : Str) : Str := rstripBS (before ['#'] raw)
+
 inductive IniLine where
   | blank
   | comment
   | header (name : Str)
-  | opt (o : IniOpt)
+  /-- `hasPiece`: text follows the separator on this line -/
+  | opt (o : IniOpt) (hasPiece : Bool)
+  /-- the grammar rejects the line -/
+  | bad
+  deriving DecidableEq, Repr
 
-def isSepChar (c : Char) : Bool := c = '=' || c = ':'
-
-/-- value of an option line: inline `#` comment removed, `rstrip(" \\")` approximated by `strip` on the
-    characters the renderer admits -/
-def iniValue (raw : Str) : Str := strip (before ['#'] (lstrip raw))
-
-def classifyIniLine (line : Str) : IniLine :=
-  let l := strip line
-  match l with
+/-- one line that is not a continuation (white space before it already skipped by the grammar's `WS`) -/
+def classifyIniLine (A : IniAlphabet) (line : Str) : IniLine :=
+  match lstripWs line with
   | [] => .blank
   | c :: rest =>
-    if c = '#' || c = ';' then .comment
-    else if c = '[' then .header (strip (rest.takeWhile (· ≠ ']')))
+    if A.comment.contains c then .comment
+    else if c = '[' then
+      -- LeftEnd >> String(header_chars) << RightEnd; only a comment may follow on the line
+      let r := rest.dropWhile (fun c => isIniWs c && c != '\n' && c != '\r')
+      let body := r.takeWhile (fun c => A.header.contains c)
+      match r.dropWhile (fun c => A.header.contains c) with
+      | ']' :: tail =>
+        if body.isEmpty then .bad
+        else match lstripWs tail with
+          | [] => .header (strip body)
+          | t :: _ => if A.comment.contains t then .header (strip body) else .bad
+      | _ => .bad
     else
-      let key := l.takeWhile (fun c => !isSepChar c)
-      match l.dropWhile (fun c => !isSepChar c) with
-      | [] => .opt ⟨strip key, none⟩
-      | _ :: v => .opt ⟨strip key, some (iniValue v)⟩
+      -- Key = WS >> String(key_chars) << WS, then Opt(Sep >> Value)
+      let l := c :: rest
+      let key := l.takeWhile (fun c => A.key.contains c)
+      if key.isEmpty then .bad
+      else match lstripWs (l.dropWhile (fun c => A.key.contains c)) with
+        | [] => .opt ⟨strip key, none⟩ false
+        | s :: v =>
+          if A.sep.contains s && v.all (fun c => A.value.contains c) then
+            (match lstripWs v with
+             | [] => .opt ⟨strip key, some []⟩ false
+             | w => .opt ⟨strip key, some (iniValuePiece w)⟩ true)
+          else .bad
 
-/-- fold the lines left to right: `cur` = the section being filled -/
-def iniLinesGo : List Str → Option IniSec → IniTree → Option IniTree
-  | [], cur, acc => some (match cur with | some s => acc ++ [s] | none => acc)
-  | line :: rest, cur, acc =>
-    match classifyIniLine line with
-    | .blank => iniLinesGo rest cur acc
-    | .comment => iniLinesGo rest cur acc
-    | .header n => iniLinesGo rest (some ⟨n, []⟩) (match cur with | some s => acc ++ [s] | none => acc)
-    | .opt o => match cur with
-      | none => none
-      | some s => iniLinesGo rest (some ⟨s.name, s.opts ++ [o]⟩) acc
+/-- append a continuation piece to the value of the last option of `s` (`" ".join(results)`) -/
+def addPiece (s : IniSec) (hasPiece : Bool) (piece : Str) : IniSec :=
+  match s.opts.reverse with
+  | [] => s
+  | o :: before =>
+    let v := match o.value with
+      | some old => if hasPiece then old ++ ' ' :: piece else piece
+      | none => piece
+    ⟨s.name, before.reverse ++ [⟨o.name, some v⟩]⟩
 
-/-- the tree of a rendered INI document -/
-def parseIni (lines : List Str) : Option IniTree := iniLinesGo lines none []
+/-- fold the lines left to right: `cur` = the section being filled, `hang` = `(column of the key,
+    a piece was already collected)` when the last line parsed was an option with a separator, whose value a
+    more deeply indented line continues (`HangingString`); `none` = the grammar rejects the text -/
+def iniLinesGo (A : IniAlphabet) : List Str → Option IniSec → IniTree → Option (Nat × Bool) → Option IniTree
+  | [], cur, acc, _ => some (match cur with | some s => acc ++ [s] | none => acc)
+  | line :: rest, cur, acc, hang =>
+    if (lstripWs line).isEmpty then iniLinesGo A rest cur acc hang else
+    let continues := match hang, cur with
+      | some (k, _), some _ => decide (leadWs line > k) && (lstripWs line).all (fun c => A.value.contains c)
+      | _, _ => false
+    if continues then
+      match hang, cur with
+      | some (k, hp), some s => iniLinesGo A rest (some (addPiece s hp (iniValuePiece (lstripWs line)))) acc (some (k, true))
+      | _, _ => none
+    else match classifyIniLine A line with
+      | .blank => iniLinesGo A rest cur acc hang
+      | .comment => iniLinesGo A rest cur acc none
+      | .header n => iniLinesGo A rest (some ⟨n, []⟩) (match cur with | some s => acc ++ [s] | none => acc) none
+      | .opt o hp => (match cur with
+        | none => none
+        | some s => iniLinesGo A rest (some ⟨s.name, s.opts ++ [o]⟩) acc
+            (if o.value.isSome then some (leadWs line, hp) else none))
+      | .bad => none
+
+/-- the tree the grammar returns for a text given as its lines (non-ASCII replaced by `?` first) -/
+def parseIni (A : IniAlphabet) (lines : List Str) : Option IniTree :=
+  iniLinesGo A (lines.map asciiReplace) none [] none
 
 /-! ### renderers (the harness has the same functions in Python) -/
 
@@ -665,13 +733,13 @@ def renderWsTable (t : WsTable) : List Str :=
 inductive IniItem where
   | sec (padL : Nat) (name : Str) (padR : Nat)
   | opt (name : Str) (sp1 : Nat) (sep : Char) (sp2 : Nat) (value : Str)
-  | comment (semicolon : Bool) (text : Str)
+  | comment (semicolon : Bool) (text : Str) (indent : Nat)
   | blank
 
 def renderIniItem : IniItem → Str
   | .sec l n r => '[' :: spaces l ++ n ++ spaces r ++ [']']
   | .opt n s1 sep s2 v => n ++ spaces s1 ++ sep :: spaces s2 ++ v
-  | .comment semi t => (if semi then ';' else '#') :: t
+  | .comment semi t n => spaces n ++ (if semi then ';' else '#') :: t
   | .blank => []
 
 def renderIni (doc : List IniItem) : List Str := doc.map renderIniItem
